@@ -24,7 +24,9 @@ class BoolOperation(object):
         self.out = Future()
         notify_cancel(self.out)
 
-        for f in fs:
+        # iterate over the distinct inputs: a future passed more than once
+        # must report (and be cancelled) only once
+        for f in list(self.fs):
             chain_cancel(self.out, f)
             f.add_done_callback(weak_callback(self.handle_done))
 
